@@ -75,10 +75,8 @@ partial def matchWalk (c : Cache) (h : Hash) (ms : MS) : Option MS :=
         | [] => if m1.trunc then some { m1 with ord := (h, p ++ other) :: m1.ord } else none
         | x :: rest => if x == h then some { m1 with rest := rest, ord := (h, p ++ other) :: m1.ord } else none
 
-def applyOrd (c : Cache) (ord : List (Hash × List Hash)) : Cache :=
-  ord.foldl (fun c ho => reorderExt c ho.1 ho.2) c
-
-def fuelOf (s : St) : Nat := s.cache.length + 1
+def applyOrd (s : St) (ord : List (Hash × List Hash)) : St :=
+  ord.foldl (fun s ho => (Rangers.Model.TrieDB.step emptyH emptyH s (.reorder ho.1 ho.2)).getD s) s
 
 def resFlag (d : Disk) (h : Hash) : String :=
   match resolve (diskGet d) (d.length + 1) h with
@@ -87,37 +85,31 @@ def resFlag (d : Disk) (h : Hash) : String :=
   | .missing => if (d.lookup h).isSome then "p" else "x"
 
 def doIns (ds : DS) (h : Hash) (n : CNode) (leaf : Option (Hash × Hash)) : DS × String :=
-  if (ds.st.cache.lookup h).isSome then
-    -- insert skips; the leaf callback still runs in Go, so run it here as well
-    match store emptyH emptyH ds.st.cache h n leaf with
-    | none => (ds, "PANIC")
-    | some c => ({ ds with st := { ds.st with cache := c } }, "dup")
-  else
-    match store emptyH emptyH ds.st.cache h n leaf with
-    | none => (ds, "PANIC")
-    | some c =>
-      let pre := match c.lookup h with
-        | none => false
-        | some n' => n.need.all fun r =>
-            (ds.st.disk.lookup r).isSome || ((c.lookup r).isSome && n'.childs.contains r)
-      ({ ds with st := { ds.st with cache := c } }, if pre then "ok" else "ok!pre")
+  let was := (ds.st.cache.lookup h).isSome
+  match Rangers.Model.TrieDB.step emptyH emptyH ds.st (.store h n leaf) with
+  | none => (ds, "PANIC")
+  | some s' =>
+    if was then ({ ds with st := s' }, "dup") else
+    let pre := match s'.cache.lookup h with
+      | none => false
+      | some n' => n.need.all fun r =>
+          (ds.st.disk.lookup r).isSome || ((s'.cache.lookup r).isSome && n'.childs.contains r)
+    ({ ds with st := s' }, if pre then "ok" else "ok!pre")
 
 def doCommit (ds : DS) (root : Hash) (failAt : Option Nat) (observed : List Hash) (trunc : Bool) : DS × String :=
-  let c0 := ds.st.cache
-  let c1 := match matchWalk c0 root ⟨observed, trunc, []⟩ with
-    | some ms => applyOrd c0 ms.ord
-    | none => c0
-  let s1 : St := { ds.st with cache := c1 }
-  match commit s1 root failAt (fuelOf s1) with
-  | none => (ds, "diverges")
-  | some out =>
-    ({ st := out.st, prevDisk := ds.st.disk, lastCache := c1, lastBatches := out.written },
+  let s1 := match matchWalk ds.st.cache root ⟨observed, trunc, []⟩ with
+    | some ms => applyOrd ds.st ms.ord
+    | none => ds.st
+  match commit s1 root failAt (s1.cache.length + 1), Rangers.Model.TrieDB.step emptyH emptyH s1 (.commit root failAt) with
+  | some out, some s' =>
+    ({ st := s', prevDisk := ds.st.disk, lastCache := s1.cache, lastBatches := out.written },
      (if out.ok then "ok " else "err ") ++ showBatches out.written)
+  | _, _ => (ds, "diverges")
 
-def step (ds : DS) (line : String) : DS × String :=
+def lineStep (ds : DS) (line : String) : DS × String :=
   match splitWords line with
   | ["reset"] => (DS.init, "ok")
-  | ["die"] => ({ ds with st := die ds.st }, "ok")
+  | ["die"] => ({ ds with st := (Rangers.Model.TrieDB.step emptyH emptyH ds.st .die).getD ds.st }, "ok")
   | ["ins", h, _, size, tag, inner, need] =>
     match hashOf? h, size.toNat?, tag.toNat?, hashList? inner, hashList? need with
     | some h, some sz, some tg, some inn, some nd => doIns ds h ⟨sz, tg, inn, [], nd⟩ none
@@ -129,9 +121,9 @@ def step (ds : DS) (line : String) : DS × String :=
   | ["ref", child, parent] =>
     match hashOf? child, hashOf? parent with
     | some ch, some p =>
-      match reference ds.st.cache ch p with
+      match Rangers.Model.TrieDB.step emptyH emptyH ds.st (.ref ch p) with
       | none => (ds, "PANIC")
-      | some c => ({ ds with st := { ds.st with cache := c } }, "ok")
+      | some s' => ({ ds with st := s' }, "ok")
     | _, _ => (ds, "bad-op")
   | ["commit", root, obs] =>
     match hashOf? root, batches? obs with
@@ -167,5 +159,5 @@ def step (ds : DS) (line : String) : DS × String :=
     | none => (ds, "bad-op")
   | _ => (ds, "bad-op")
 
-def run : IO Unit := runLines DS.init step
+def run : IO Unit := runLines DS.init lineStep
 end Rangers.Drive.C03
